@@ -97,13 +97,13 @@ type propSpec struct {
 var props = map[string]propSpec{
 	"C01": {ID: "C01", Engine: "raft", Profiles: []profShare{{"elect", 6}, {"transfer", 2}, {"member", 2}},
 		Rule: "a run counts when >=3 elections started and (some term had >=2 candidates or a leader was replaced); distinct by schedule hash"},
-	"C02": {ID: "C02", Engine: "raft", Profiles: []profShare{{"repl", 4}, {"elect", 3}, {"member", 2}, {"crash", 1}},
+	"C02": {ID: "C02", Engine: "raft", Profiles: []profShare{{"repl", 4}, {"elect", 3}, {"member", 2}, {"crash", 1}, {"diskerr", 1}},
 		Rule: "a run counts when a leader change happened after >=1 commit and (some node truncated a conflicting suffix or a leader was elected while some node held uncommitted entries); distinct by schedule hash"},
 	"C03": {ID: "C03", Engine: "raft", Profiles: []profShare{{"repl", 4}, {"snap", 3}, {"crash", 3}},
 		Rule: "a run counts when >=20 updates were applied on >=2 nodes and >=1 leader change, restore or restart happened; distinct by schedule hash"},
 	"C04": {ID: "C04", Engine: "raft", Profiles: []profShare{{"repl", 4}, {"elect", 4}, {"crash", 2}},
 		Rule: "a run counts when >=1 conflict truncation happened or >=1 append request from a lower term was delivered; distinct by schedule hash"},
-	"C05": {ID: "C05", Engine: "raft", Profiles: []profShare{{"elect", 6}, {"crash", 4}},
+	"C05": {ID: "C05", Engine: "raft", Profiles: []profShare{{"elect", 6}, {"crash", 3}, {"diskerr", 1}},
 		Rule: "a run counts when a voter handled vote requests in a term with >=2 candidates, or handled a vote request after restarting in that term; distinct by schedule hash"},
 	"C06": {ID: "C06", Engine: "raft", Profiles: []profShare{{"member", 6}, {"crash", 2}, {"repl", 2}},
 		Rule: "a run counts when the durability oracle was evaluated at >=1 commit under a configuration whose voter count differs from the initial one, or while a non-voter held the entry; distinct by schedule hash"},
@@ -113,7 +113,7 @@ var props = map[string]propSpec{
 		Rule: "a run counts when >=2 configuration entries were compared with their predecessor and >=1 leader change or crash happened; distinct by schedule hash"},
 	"C09": {ID: "C09", Engine: "raft", Profiles: []profShare{{"snap", 1}},
 		Rule: "a run counts when >=1 snapshot was published, >=1 compaction removed a segment and >=1 snapshot was installed or restored from; distinct by schedule hash"},
-	"C10": {ID: "C10", Engine: "raft", Profiles: []profShare{{"crash", 6}, {"snap", 4}},
+	"C10": {ID: "C10", Engine: "raft", Profiles: []profShare{{"crash", 5}, {"snap", 3}, {"diskerr", 2}},
 		Rule: "a run counts when >=1 crash landed at an I/O boundary of the victim and that node was restarted; distinct by schedule hash"},
 	"C11": {ID: "C11", Engine: "raft", Profiles: []profShare{{"member", 7}, {"transfer", 3}},
 		Rule: "a run counts when >=1 promotion, demotion or removal was carried out (configuration entry stored) and a timeout-now or election event reached a node; distinct by schedule hash"},
